@@ -163,7 +163,7 @@ def layout(run, prop, with_matrix=True):
     run.assumptions += F0_ASSUME
 
 def C01(run): layout(run, 'C01')
-def C02(run): layout(run, 'C02', with_matrix=False)
+def C02(run): layout(run, 'C02')   # matrix for C02 = the canonical family (construct texts, atoms; byte identity)
 def C03(run): layout(run, 'C03')
 def C18(run): layout(run, 'C18')
 def C06(run):
